@@ -7,7 +7,7 @@ belongs to the class or one of its subclasses.
 """
 import ast, random
 import z3
-from engine.core import Report, Ob, CEX
+from engine.core import Report, Ob, CEX, HOLDS, INCONCLUSIVE
 from engine import env as E0
 from engine.symsql import symdb
 from engine.symsql.e1 import Program
@@ -26,7 +26,8 @@ def get_db(variant):
         class A(db.Entity):
             id = PrimaryKey(int)
             x = Required(int)
-            hs = Set('H')
+            hs = Set('H', reverse='ref')
+            hs2 = Set('H', reverse='ref2')
         class B(A):
             y = Optional(int)
         class C(A):
@@ -39,19 +40,21 @@ def get_db(variant):
             kind = Discriminator(int)
             _discriminator_ = 1
             x = Required(int)
-            hs = Set('H')
+            hs = Set('H', reverse='ref')
+            hs2 = Set('H', reverse='ref2')
         class B(A):
             _discriminator_ = 2
             y = Optional(int)
         class C(A):
-            _discriminator_ = 3
+            _discriminator_ = 0          # a falsy code is an ordinary code
             z = Optional(int)
         class D(B):
             _discriminator_ = 4
             w = Optional(int)
     class H(db.Entity):
         id = PrimaryKey(int)
-        ref = Optional(A)
+        ref = Optional(A, reverse='hs')
+        ref2 = Optional(A, reverse='hs2')
         k = Required(int)
     db.generate_mapping(create_tables=True)
     _dbs[variant] = db
@@ -72,7 +75,58 @@ PROGRAMS = [
     '(a for a in A if a.hs)', '(b for b in B if not b.hs)', '((a.id, len(a.hs)) for a in A)', '((d.id, len(d.hs)) for d in D)', '(b for b in B if x in b.hs.k)',
     '(b for b in B for h in b.hs if h.k > x)', '((b.id, h.id) for b in B for h in H if h.ref == b)', '(h for h in H for d in D if h.ref == d and d.w == h.k)',
     '(a for a in A if a in (h.ref for h in H if h.k == x))', '(c for c in C if c.id in (h.ref.id for h in H))',
+    # isinstance naming an ancestor / sibling of the iterated (non-root) entity
+    '(b for b in B if isinstance(b, A))', '(b for b in B if isinstance(b, B))', '(d for d in D if isinstance(d, A))', '(d for d in D if isinstance(d, B))',
+    '(d for d in D if isinstance(d, (B, C)))', '(b for b in B if isinstance(b, (A, C)))', '(b for b in B if not isinstance(b, A))', '(d for d in D if not isinstance(d, (A, C)))',
+    '(b for b in B if isinstance(b, C))', '(c for c in C if isinstance(c, (B, D)))', '(c for c in C if not isinstance(c, B))', '(b for b in B if isinstance(b, (C, D)))',
+    '(b for b in B if isinstance(b, A) and b.y == x)', '(d.id for d in D if isinstance(d, B) or d.w == x)',
+    # tuples with several entity columns of the same declared type
+    '((h.ref, h.k, h.ref2) for h in H if h.ref is not None and h.ref2 is not None)', '((h.ref2, h.ref) for h in H if h.ref is not None and h.ref2 is not None)',
+    '((h, h.ref2) for h in H if h.ref2 is not None)', '((a, h.ref2) for a in A for h in a.hs if h.ref2 is not None)',
 ]
+
+
+def class_tie(rep, db, S, variant, src, scope):
+    """Concrete tie on solver-chosen databases: run the real query in a fresh session and compare the CLASS of every returned
+    object with the class its row's discriminator denotes (objects keep their class however they are reached)."""
+    from pony.orm import db_session
+    from pony.orm.core import Entity
+    from engine.symsql import e1
+    root = db.A
+    code2cls = {cls._discriminator_: cls.__name__ for cls in [root] + list(root._subclasses_)}
+    dcol = root._discriminator_attr_.columns[0]
+    s = z3.Solver(); s.set('timeout', 5000)
+    s.add(*S.constraints)
+    rows = S.tables['A']
+    # every slot present, pairwise different classes where possible, references set: the interesting databases
+    for r in rows: s.add(r.present)
+    for r in S.tables['H']:
+        s.add(r.present, z3.Not(r.cols['ref'].n), z3.Not(r.cols['ref2'].n), r.cols['ref'].t != r.cols['ref2'].t)
+    if len(rows) >= 2: s.add(rows[0].cols[dcol].t != rows[1].cols[dcol].t)
+    for attempt in range(3):
+        if s.check() != z3.sat: break
+        m = s.model()
+        tables = symdb.concrete_rows(S, m)
+        expected = {r['id']: code2cls[r[dcol]] for r in tables['A']}
+        e1.populate(db, tables)
+        name = '[%s discriminator] class tie %d: %s' % (variant, attempt, src)
+        bad = []
+        try:
+            with db_session:
+                q = e1.build_query(db, Program(src, scope, 'string'))
+                for item in q[:]:
+                    for obj in (item if isinstance(item, tuple) else (item,)):
+                        if isinstance(obj, Entity) and isinstance(obj, root):
+                            if type(obj).__name__ != expected.get(obj.id): bad.append((obj.id, type(obj).__name__, expected.get(obj.id)))
+        except Exception as ex:
+            rep.add(Ob(name, 'concrete-tie', INCONCLUSIVE, detail='%s: %s' % (type(ex).__name__, str(ex)[:100]))); return
+        if bad:
+            rep.add(Ob(name, 'concrete-tie', CEX, detail='objects with the wrong class (id, got, expected): %r' % bad, cex={'program': src, 'tables': tables, 'wrong': bad},
+                       reproduced=True, key='wrong-class', replay='# C27 class tie: %r on %r returns objects of the wrong class: %r\nraise SystemExit(1)\n' % (src, tables, bad)))
+            return
+        rep.add(Ob(name, 'concrete-tie', HOLDS))
+        # next database: different class assignment
+        s.add(z3.Or([r.cols[dcol].t != m.eval(r.cols[dcol].t, model_completion=True) for r in rows]))
 
 
 def run(tier, seed, only=None):
@@ -98,6 +152,10 @@ def run(tier, seed, only=None):
                 ob.name = '[%s discriminator] %s' % (variant, ob.name)
                 rep.add(ob)
                 if ob.verdict == CEX: rep.sample({'program': src, 'variant': variant, 'counterexample': ob.cex, 'key': ob.key}, limit=6)
+            elt = ast.parse(src, mode='eval').body.elt
+            if isinstance(elt, (ast.Name, ast.Tuple, ast.Attribute)) and not src.startswith('(h for') and '.id' not in src.split(' for ')[0] and '.x' not in src.split(' for ')[0] \
+                    and not any(src.startswith(pfx) for pfx in ('(b.y', '(d.w', '(d.y', '(h.k')):
+                class_tie(rep, db, S, variant, src, prog.scope)
     c01._cache.pop('sqlite', None)
     rep.programs = n
     rep.bounds = {'hierarchy': 'A <- B <- D, A <- C; H.ref -> A (optional), A.hs reverse set', 'rows per table': R,
